@@ -84,9 +84,9 @@ def audit(prop, thms):
     p = subprocess.run(['lake', 'env', 'lean', path], cwd=LEAN, capture_output=True, text=True, timeout=900)
     outp = p.stdout + p.stderr
     axioms = {}
-    for m in re.finditer(r"'([^']+)' depends on axioms: \[([^\]]*)\]", outp.replace('\n', ' ')):
+    for m in re.finditer(r"'(\S+?)' depends on axioms: \[([^\]]*)\]", outp.replace('\n', ' ')):
         axioms[m.group(1)] = [a.strip() for a in m.group(2).split(',') if a.strip()]
-    for m in re.finditer(r"'([^']+)' does not depend on any axioms", outp):
+    for m in re.finditer(r"'(\S+?)' does not depend on any axioms", outp):
         axioms[m.group(1)] = []
     bad = []
     for t in thms:
